@@ -73,6 +73,7 @@ class AsyncFIXDummyServer(AsyncFIXConnection):
 
             writer.close()
             await writer.wait_closed()
+            return
 
         self._socket_reader = reader
         self._socket_writer = writer
